@@ -20,7 +20,8 @@ non-empty prefix of the pending bytes, at most `n` long -/
 theorem Env.read_cases (e : Env) (off : Nat) (n : Int) (hn : 0 < n) (hb : (off : Int) + n ≤ BUF)
     (hf : e.FaultFree) (hs : e.Safe) :
     (e.read off n).2.FaultFree ∧ (e.read off n).2.Safe ∧
-    (((e.read off n).1 = .again ∧ (e.read off n).2.pending = e.pending) ∨
+    (((e.read off n).1 = .again ∧ (e.read off n).2.pending = e.pending ∧
+        ((e.next).1 = .eagain ∨ e.pending = [])) ∨
      (∃ t : Nat, 0 < t ∧ (t : Int) ≤ n ∧ t ≤ e.pending.length ∧
         (e.read off n).1 = .data (e.pending.take t) ∧ (e.read off n).2.pending = e.pending.drop t)) := by
   obtain ⟨hb1, hff, hp, hl⟩ := Env.next_props e hf
@@ -44,11 +45,11 @@ theorem Env.read_cases (e : Env) (off : Nat) (n : Int) (hn : 0 < n) (hb : (off :
   | eof => simp [Resp.benign] at hb1
   | fail => simp [Resp.benign] at hb1
   | eagain =>
-    refine ⟨hffk _ _, hsafe _ _, Or.inl ⟨?_, ?_⟩⟩ <;> simp [hp]
+    refine ⟨hffk _ _, hsafe _ _, Or.inl ⟨?_, ?_, Or.inl rfl⟩⟩ <;> simp [hp]
   | chunk k =>
     by_cases hpe : e1.pending = []
     · simp only [hpe, if_true]
-      refine ⟨hffk _ _, hsafe _ _, Or.inl ⟨?_, ?_⟩⟩ <;> simp [← hp, hpe]
+      refine ⟨hffk _ _, hsafe _ _, Or.inl ⟨?_, ?_, Or.inr (by rw [← hp]; exact hpe)⟩⟩ <;> simp [← hp, hpe]
     · simp only [hpe, if_false]
       refine ⟨hffk _ _, hsafe _ _, Or.inr ⟨min (min (k + 1) n.toNat) e.pending.length, ?_, ?_, ?_, ?_, ?_⟩⟩
       · have : 0 < e.pending.length := by
